@@ -746,7 +746,8 @@ class Opaque(Type):
         # actual type or a row variable.
         args = [cast(model.Term, arg.to_model()) for arg in self.args]
 
-        return model.Apply(self.id, args)
+        name = f"{self.extension}.{self.id}" if self.extension else self.id
+        return model.Apply(name, args)
 
 
 @dataclass
